@@ -71,6 +71,6 @@ CliSitesAll == CliSitesQuick \cup
                    S("res_serialize_plot", 1, TRUE, {"str"}), S("ape_save_plot_noext", 2, TRUE, {"str"}) }
 QuickSites == LibSites \cup CliSitesQuick
 AllSites == LibSites \cup CliSitesAll
-AnswersAll == {"y", "n", "", "Y", "yes", " y"}
+AnswersAll == {"y", "n", "", "Y", "yes", " y", "EOF"}      \* "EOF": standard input is at end-of-file (input() raises EOFError) - not a 'y'
 AnswersMulti == {"y", "n", ""}
 ==============================================================================
